@@ -101,7 +101,7 @@ static Outcome execute(Conf const &c, int mode, int T, std::vector<int> const &p
       return COLVARS_OK;
     };
   std::string conf = std::string("smp ") + smp_kw + "\n" + c.body;
-  if (px->config(conf) != 0) { fprintf(stderr, "HARNESS-ERROR: %s rejected: %s\n", c.name, px->errtxt.c_str()); exit(2); }
+  if (px->config(conf) != 0) { fprintf(stderr, "HARNESS-ERROR: %s rejected: %s\n", c.name, px->errtxt.c_str()); exit(3); }
   // run-time feature of the scripting interface ("cv colvar <name> set collect_gradient 1"): per-atom gradients of the
   // variable, accumulated from all its components
   for (auto *cv : *(px->colvars->variables()))
